@@ -663,6 +663,59 @@ def r17_content_rewound_before_queued(cx):
           "every path to ClusterCreator::add_content passes a rewind / seek(Start(0)) of the content (%d sites); paths without one start at: %s" % (len(rew), bad), ln=queue[0][1].get("ln"))
 
 
+def r18_tables_are_single_blocks(cx, rule="R18"):
+    """the tables of a pack (content infos, cluster pointers, the three pointer arrays of a directory pack) are each
+    ONE checked block: `count * SIZE` bytes followed by one CRC, which is how the reader cuts them
+    (ArrayReader::new_memory_from_reader). On the writer side each is one `ser_callable` that is not inside a loop
+    -- written in several pieces, every piece gets its own CRC in the middle of the table (and an empty table none)."""
+    F = cx.F
+    n = 0
+    for f in F.live_fns:
+        if "blocks" not in f or f.get("kind") == "closure" or not re.search(r"^creator::", f["name"]):
+            continue
+        if not any(call_is(blk["t"], r"OutStream>::ser_callable$|::ser_callable$") for blk in f["blocks"] if not blk.get("cleanup")):
+            continue
+        b = F.body(f)
+        nm = ((f.get("impl_self") or "").split("<")[0].split("::")[-1] + "." + f["item_name"]) if f.get("impl_self") and f.get("item_name") else f["name"].split("::")[-1]
+        for k, (i, t) in enumerate(b.calls(r"::ser_callable$")):
+            n += 1
+            cx.ob(rule, "%s/%s/table#%d-is-one-block" % (rule, nm, k), i not in b.reach_after(i), f,
+                  "the table written by ser_callable at line %s is written once (the call is not inside a loop)" % t.get("ln"), ln=t.get("ln"))
+    if n < 5:
+        raise AnchorLost("tables written with ser_callable by the creators: %d" % n)
+
+
+def r19_positions_taken_on_the_buffered_stream(cx, rule="R19"):
+    """'stored size = position after the data - position before': a position of the output is asked of the stream the
+    bytes are written to. Asking the stream *under* a BufWriter (`get_mut()` / `get_ref()`) ignores what is still
+    in the buffer -- the tail of the previous cluster, a small compressed cluster -- so the answer depends on what the
+    previous task left there (C08: on the order the workers delivered their clusters)."""
+    F = cx.F
+    n = 0
+    bad = []
+    for f in F.live_fns:
+        if "blocks" not in f or not re.search(r"^creator::|^tools::|^bases::write::", f["name"]):
+            continue
+        b = None
+        for i, blk in enumerate(f["blocks"]):
+            t = blk["t"]
+            if blk.get("cleanup") or not call_is(t, r"OutStream>::tell$|::tell$", r"Seek>::stream_position$", r"Seek>::seek$"):
+                continue
+            b = b or F.body(f)
+            n += 1
+            if not t["args"]:
+                continue
+            for x in b.origins(t["args"][0], through_calls=True):
+                if x[0] == "call" and call_is(b.term(x[1]), r"BufWriter::<.*>::get_mut$", r"BufWriter::<.*>::get_ref$"):
+                    bad.append((f, t.get("ln")))
+    for f, ln in bad:
+        cx.ob(rule, "%s/%s/position-of-the-inner-stream" % (rule, f["name"].split("::")[-1]), False, f,
+              "a position is taken (or set) on the stream under a BufWriter at line %s: bytes still in the buffer are not counted" % ln, ln=ln)
+    cx.ob(rule, "%s/positions-on-the-writing-stream" % rule, not bad, "(creator)", "%d position queries / seeks of the creators, none on the inner stream of a BufWriter" % n)
+    if n < 20:
+        raise AnchorLost("position queries in the creators: %d" % n)
+
+
 def r10_witness(cx):
     """type-level: ContentPackCreator::finalize consumes the creator (no insertion after finalisation)"""
     import witness
@@ -695,4 +748,6 @@ RULES = [
     ("R15", r15_pack_table_covers_every_id, 1),
     ("R16", r16_cluster_index_fits, 1),
     ("R17", r17_content_rewound_before_queued, 1),
+    ("R18", r18_tables_are_single_blocks, 5),
+    ("R19", r19_positions_taken_on_the_buffered_stream, 1),
 ]
